@@ -30,6 +30,16 @@ theorem ofExpr_is_source (jn : JsonNum N) (e : Expr N) : Json.ofExpr jn e = SrcS
   all_goals intros
   all_goals simp_all [Json.ofExpr, SrcSerde.ofExpr, Json.ofExprs, SrcSerde.ofExprs, opName_is_source, ofValue_is_source]
 
+theorem toValue_is_source (jn : JsonNum N) (j : Json N) : Json.toValue jn j = SrcSerde.toValue jn j := by
+  refine Json.rec (motive_1 := fun j => Json.toValue jn j = SrcSerde.toValue jn j)
+    (motive_2 := fun js => Json.toValues jn js = SrcSerde.toValues jn js) (motive_3 := fun _ => True) (motive_4 := fun _ => True)
+    ?_ ?_ ?_ ?_ ?_ ?_ ?_ ?_ ?_ ?_ ?_ ?_ j
+  all_goals intros
+  all_goals first
+    | trivial
+    | (simp_all [Json.toValue, SrcSerde.toValue, Json.toValues, SrcSerde.toValues]; done)
+    | (rename_i h t ih1 ih2; simp only [Json.toValues, SrcSerde.toValues, ih1, ih2]; cases SrcSerde.toValue jn h <;> rfl)
+
 /-- the round-trip theorem restated about the serialiser derived from the source: reading back what the SOURCE writes yields the tree -/
 theorem json_roundtrip_source (jn : JsonNum N) (e : Expr N) (h : C12.FiniteLits jn e) : Json.toExpr jn (SrcSerde.ofExpr jn e) = some e := by
   rw [← ofExpr_is_source]; exact C12.json_roundtrip jn e h
